@@ -7,6 +7,13 @@ in the order of the source (append to prior -> removals with the per-call `skip`
 list -> feed pending -> intake with replay over `prior` -> `tlb` update -> emit
 batch -> prune -> done-callback test).
 
+`queue` is shared with the rest of the program: requests may be appended to it *during* a
+call, after its intake loop has drained it and before its done test reads `len(queue)` —
+re-entrantly by `target` (a consumer that schedules the next epoch when it is handed one) or
+by another thread (the generation thread posting the queue's `added` notifications).  A
+`Call` carries them as `late`; they stay in `queue` (`State.queue`), the done test sees them,
+and the intake loop of the next call takes them in before that call's own requests.
+
 Sample values are abstract (`α` = one *column* of the input: a scalar for 1-D
 input, the vector of all channels for 2-D input).  Time is in samples; the two
 `round(...)` conversions of lines 816-817 are done by the caller (harness), a
@@ -132,7 +139,7 @@ def mergeOk {α} : List (Epoch α) → Bool
 def prune {α} (B tlb : Nat) (prior : List (Nat × List α)) : List (Nat × List α) :=
   prior.dropWhile (fun x => decide (x.1 + x.2.length + B < tlb))
 
-/-- Locals of `extract_epochs` between two `(yield)`s. -/
+/-- Locals of `extract_epochs` between two `(yield)`s, and what `queue` holds then. -/
 structure State (α : Type) where
   tlb : Nat
   pending : Pending α                -- epoch_coroutines (insertion order)
@@ -140,9 +147,11 @@ structure State (α : Type) where
   bufferSamples : Nat                -- buffer_samples
   doneFired : Bool                   -- empty_queue_cb is None
   dead : Bool                        -- the generator raised and is finished
+  queue : List Request               -- `queue`: requests appended after the intake loop of the last call
 
 def State.init {α} (B : Nat) : State α :=
-  { tlb := 0, pending := [], prior := [], bufferSamples := B, doneFired := false, dead := false }
+  { tlb := 0, pending := [], prior := [], bufferSamples := B, doneFired := false, dead := false,
+    queue := [] }
 
 /-- One `send(data)` together with what the caller put into `queue`,
 `removed_queue` and `source_complete` since the previous `send`. -/
@@ -152,27 +161,50 @@ structure Op (α : Type) where
   rems : List Nat
   complete : Bool          -- source_complete.is_set() at the end of this call
 
+/-- One `send(data)` as it runs: besides the `Op`, the requests appended to `queue` while the
+call is running, after its intake loop (`while queue:` 803-833) has ended and before its done
+test (860-863) — by `target(merged)` (line 847) re-entrantly, or by another thread. -/
+structure Call (α : Type) extends Op α where
+  late : List Request
+
 inductive Outcome (α : Type) where
   | ok (batch : List (Epoch α)) (fired : Bool)   -- `target(merged)` iff batch ≠ []; `empty_queue_cb()` iff fired
   | valueError                                   -- raised out of `send`
   | dead                                         -- `send` on the finished generator (StopIteration)
 
-def step {α} (st : State α) (op : Op α) : State α × Outcome α :=
+/-- One iteration of the `while True` of `extract_epochs` (763-867). -/
+def call {α} (st : State α) (c : Call α) : State α × Outcome α :=
   if st.dead then (st, .dead) else
-  let prior1 := st.prior ++ [(st.tlb, op.chunk)]
-  let rm := removeAll st.pending op.rems
-  let fd := feedAll rm.1 st.tlb op.chunk
-  match intakeAll prior1 fd.1 rm.2 op.reqs with
+  let prior1 := st.prior ++ [(st.tlb, c.chunk)]
+  let rm := removeAll st.pending c.rems
+  let fd := feedAll rm.1 st.tlb c.chunk
+  -- `queue` holds what the previous call left there, then what the caller appended since
+  match intakeAll prior1 fd.1 rm.2 (st.queue ++ c.reqs) with
   | none => ({ st with dead := true }, .valueError)
   | some (pending, es2) =>
     let epochs := fd.2 ++ es2
-    let tlb := st.tlb + op.chunk.length
+    let tlb := st.tlb + c.chunk.length
     if !mergeOk epochs then ({ st with dead := true }, .valueError) else
     let prior := prune st.bufferSamples tlb prior1
-    -- `len(queue) == 0` always holds here: the intake loop has just drained it
-    let fire := op.complete && pending.isEmpty && !st.doneFired
-    ({ st with tlb := tlb, pending := pending, prior := prior,
+    -- the intake loop has drained `queue`; by now it holds `c.late`
+    let queue := c.late
+    -- source_complete.is_set() and len(queue) == 0 and len(epoch_coroutines) == 0 and empty_queue_cb is not None
+    let fire := c.complete && queue.isEmpty && pending.isEmpty && !st.doneFired
+    ({ st with tlb := tlb, pending := pending, prior := prior, queue := queue,
                doneFired := st.doneFired || fire }, .ok epochs fire)
+
+/-- A call during which nothing is appended to `queue` (single-threaded use with a `target`
+that does not post requests). -/
+def step {α} (st : State α) (op : Op α) : State α × Outcome α :=
+  call st { op with late := [] }
+
+/-- Run a whole history of calls; one outcome per call. -/
+def runCalls {α} : State α → List (Call α) → State α × List (Outcome α)
+  | st, [] => (st, [])
+  | st, c :: cs =>
+    let r := call st c
+    let rr := runCalls r.1 cs
+    (rr.1, r.2 :: rr.2)
 
 /-- Run a whole history; one outcome per call. -/
 def run {α} : State α → List (Op α) → State α × List (Outcome α)
